@@ -194,6 +194,11 @@ def run_shards(prop: str, tier: str, seed: int, nshards: int, budget_s: float) -
             # every fourth shard runs its interpreter with -O (assert statements stripped, __debug__ False), as deployments started with
             # PYTHONOPTIMIZE do: library code must not depend on an assert for its effects (the harness's own asserts carry none)
             opt = ["-O"] if (i + seed) % 4 == 3 else []
+            # ... and every fourth shard (another one) turns DeprecationWarnings into errors, as test suites and strict deployments do
+            # (PYTHONWARNINGS=error): a warning raised in the middle of library code must not leave it half done.  (The one warning the
+            # unchanged tree itself produces - asyncio.get_event_loop() for a client built outside a running loop - stays a warning.)
+            if (i + seed) % 4 == 1:
+                opt += ["-W", "error::DeprecationWarning", "-W", "ignore:There is no current event loop:DeprecationWarning"]
             cmd = [
                 PY, *opt, "-X", "faulthandler", "-W", "error::RuntimeWarning", "-m", "vf.worker",
                 prop, "--shard", str(i), "--nshards", str(nshards), "--tier", tier,
